@@ -23,7 +23,10 @@
 (* checker (Trace_Events) carries the set of states that explain the lines *)
 (* read so far, so one TLC run judges every line of every history.         *)
 (*                                                                         *)
-(* Dev: named deviations of the code from the strict design                *)
+(* Named deviations of the code from the strict design (the operators that  *)
+(* depend on them take the set `dev` as their first argument; the model      *)
+(* checker passes the constant Dev, the trace checker evaluates every subset *)
+(* of the open deviations side by side):                                     *)
 (*   "NoopEvent"          a save that changes nothing is reported UPDATED  *)
 (*                        and emits an event (change flags of a record are *)
 (*                        never cleared)                                   *)
@@ -58,13 +61,13 @@ Init0 ==
 
 -----------------------------------------------------------------------------
 (* what an operation does to a record holding `cur` (0 = absent): <<kind, new value, event value>> *)
-Effect(op, cur, v) ==
+Effect(dev, op, cur, v) ==
   CASE op = "set"   -> IF cur = Absent THEN <<"new", v, v>>
-                       ELSE IF cur = v /\ "NoopEvent" \notin Dev THEN <<"none", cur, 0>>
+                       ELSE IF cur = v /\ "NoopEvent" \notin dev THEN <<"none", cur, 0>>
                        ELSE <<"modified", v, v>>
     [] op = "setnx" -> IF cur = Absent THEN <<"new", v, v>> ELSE <<"none", cur, 0>>
     [] op = "patch" -> IF cur = Absent THEN <<"new", v, v>>       \* CreateIfNotExist
-                       ELSE IF cur = v /\ "NoopEvent" \notin Dev THEN <<"none", cur, 0>>
+                       ELSE IF cur = v /\ "NoopEvent" \notin dev THEN <<"none", cur, 0>>
                        ELSE <<"modified", v, v>>
     [] op = "inc"   -> IF cur = Absent THEN <<"new", v, v>> ELSE <<"modified", cur + v, cur + v>>
     [] op \in {"del", "shift"} -> IF cur = Absent THEN <<"none", cur, 0>> ELSE <<"deleted", Absent, cur>>
@@ -90,18 +93,18 @@ DoCall(st, w, op, k, v, t) ==
   ELSE {[st EXCEPT !.pend[w] = [IdleW EXCEPT !.ph = "called", !.op = op, !.k = k, !.v = v, !.tc = t]]}
 
 \* the record's guard: nobody else is between its commit and the end of its sends on this record
-GuardFree(st, w) ==
+GuardFree(dev, st, w) ==
   \A w2 \in Writers \ {w} :
     (st.pend[w2].ph = "committed" /\ st.pend[w2].k = st.pend[w].k
-       /\ ~("DeleteUnguarded" \in Dev /\ st.pend[w2].kind = "deleted")) =>
+       /\ ~("DeleteUnguarded" \in dev /\ st.pend[w2].kind = "deleted")) =>
        (st.pend[w2].owed = {} /\ st.pend[w2].sending = {})
 
-DoCommit(st, w) ==
+DoCommit(dev, st, w) ==
   LET p == st.pend[w] IN
-  IF p.ph # "called" \/ ~GuardFree(st, w) THEN {}
+  IF p.ph # "called" \/ ~GuardFree(dev, st, w) THEN {}
   ELSE LET reads == p.k = 0
            cur == IF reads THEN Absent ELSE st.store[p.k]
-           e == Effect(p.op, cur, p.v)
+           e == Effect(dev, p.op, cur, p.v)
            owed == IF e[1] = "none" THEN {} ELSE st.subs
            st1 == IF reads THEN st ELSE [st EXCEPT !.store[p.k] = e[2]]
            st2 == [st1 EXCEPT !.pend[w] = [p EXCEPT !.ph = "committed", !.kind = e[1], !.val = e[3], !.old = cur, !.owed = owed, !.tcm = st.now]]
@@ -113,13 +116,13 @@ DoCommit(st, w) ==
 \* msg = [k, kind, val, et, etn]: what the stream was handed.  et = the event time, etn = the seconds field of the
 \* event time read as nanoseconds (what it would be under TimeNanosAsSeconds); the lower bound is checked here,
 \* the upper bound at the return
-DoSendBegin(st, w, s, msg) ==
+DoSendBegin(dev, st, w, s, msg) ==
   LET p == st.pend[w]
-      t == IF "TimeNanosAsSeconds" \in Dev THEN msg.etn ELSE msg.et
+      t == IF "TimeNanosAsSeconds" \in dev THEN msg.etn ELSE msg.et
   IN IF /\ p.ph = "committed" /\ s \in p.owed
         /\ msg.k = p.k /\ msg.kind = p.kind /\ msg.val = p.val
         /\ p.tc <= t
-        /\ (st.infl[s] = 0 \/ "ConcurrentSend" \in Dev)
+        /\ (st.infl[s] = 0 \/ "ConcurrentSend" \in dev)
        THEN {[st EXCEPT !.pend[w] = [p EXCEPT !.owed = p.owed \ {s}, !.sending = p.sending \cup {s}, !.ets = p.ets \cup {t}],
                         !.infl[s] = st.infl[s] + 1,
                         !.recv[s] = IF st.hist THEN Append(st.recv[s], [w |-> w, k |-> msg.k, kind |-> msg.kind, val |-> msg.val, t |-> msg.et])
